@@ -382,9 +382,20 @@ fn validate_fields(input: &Struct, data_type_attrs: &DataTypeAttrs, data_type_at
 
     if !input.named_fields {
         for (data_type_attr, kind, fallible) in data_type_attrs_by_kind {
-            if data_type_attr.quick_return.is_none() && data_type_attr.type_hint == TypeHint::Struct {
+            if data_type_attr.quick_return.is_none() {
                 for field in &input.fields {
                     if field.attrs.ghost(&data_type_attr.ty, kind).is_some() || field.attrs.has_parent_attr(&data_type_attr.ty) {
+                        continue;
+                    }
+
+                    // A #[child] member goes into a nested struct: what counts is the form #[child_parents] gives that struct
+                    let type_hint = match (kind.is_from(), field.attrs.child(&data_type_attr.ty)) {
+                        (false, Some(child_attr)) => data_type_attrs.child_parents_attr(&data_type_attr.ty)
+                            .and_then(|x| x.child_parents.iter().find(|child_data| child_data.check_match(child_attr.get_child_path_str(None))))
+                            .map_or(data_type_attr.type_hint, |child_data| child_data.type_hint),
+                        _ => data_type_attr.type_hint,
+                    };
+                    if type_hint != TypeHint::Struct {
                         continue;
                     }
 
